@@ -29,9 +29,9 @@ SCRATCH = os.environ.get("VERIF_SCRATCH", "/var/tmp/verif-scratch")
 # per file: the engine runs that can see a defect there (VERIF_ANY=1 makes one
 # engine run report violations of every property it monitors)
 FILES = {
-    "numba_scfg/core/transformations.py": ["C01", "C12"],
-    "numba_scfg/core/datastructures/scfg.py": ["C01", "C14", "C15", "C12"],
-    "numba_scfg/core/datastructures/basic_block.py": ["C01", "C14"],
+    "numba_scfg/core/transformations.py": ["C01", "C07", "C12"],
+    "numba_scfg/core/datastructures/scfg.py": ["C01", "C14", "C15", "C07", "C12"],
+    "numba_scfg/core/datastructures/basic_block.py": ["C01", "C14", "C07"],
     "numba_scfg/core/datastructures/ast_transforms.py": ["C07", "C12"],
 }
 
@@ -163,17 +163,28 @@ def main():
     ap.add_argument("--phase2-batches", type=int, default=48)
     ap.add_argument("--workers", type=int, default=12)
     ap.add_argument("--phase2-parallel", type=int, default=3)
+    ap.add_argument("--retry", help="earlier result file: only re-run phase 2 for the mutants that survived there")
     a = ap.parse_args()
     os.makedirs(SCRATCH, exist_ok=True)
     os.makedirs(os.path.dirname(a.out), exist_ok=True)
     muts = gen_mutants()
+    if a.retry:
+        keep = set()
+        for ln in open(a.retry):
+            r = json.loads(ln)
+            if r.get("status") == "survived":
+                keep.add(r["id"])
+        muts = [m for m in muts if m["id"] in keep]
     muts.sort(key=lambda m: hashlib.sha256(("%d|%s" % (a.seed, m["id"])).encode()).hexdigest())
     if a.sample:
         muts = muts[: a.sample]
     print("mutants: %d" % len(muts), flush=True)
     t0 = time.time()
-    with ThreadPoolExecutor(max_workers=a.workers) as ex:
-        r1 = list(ex.map(phase1, muts))
+    if a.retry:
+        r1 = ["suite-passes"] * len(muts)
+    else:
+        with ThreadPoolExecutor(max_workers=a.workers) as ex:
+            r1 = list(ex.map(phase1, muts))
     for m, r in zip(muts, r1):
         m["phase1"] = r
     cnt = {}
